@@ -1,0 +1,168 @@
+//go:build verif
+
+// Contracts for package cert, checked by /verif/govc (contract-based deductive
+// verification). Compiled only with -tags verif. The //@ blocks are the
+// contracts; the Go functions are specification functions.
+
+package cert
+
+import (
+	"net/netip"
+	"time"
+)
+
+var (
+	_ netip.Prefix
+	_ time.Time
+)
+
+// ---- contract vocabulary (evaluated symbolically by govc, never executed) ----
+
+func old[T any](x T) T        { return x }
+func implies(a, b bool) bool  { return !a || b }
+func iff(a, b bool) bool      { return a == b }
+func same[T any](a, b T) bool { return true }
+func mapof[K comparable, V any](m map[K]V) bool { return true }
+func has[K comparable, V any](m map[K]V, k K) bool {
+	_, ok := m[k]
+	return ok
+}
+func ite[T any](c bool, a, b T) T {
+	if c {
+		return a
+	}
+	return b
+}
+
+// =====================================================================
+// C01 — certificate acceptance equals the documented trust rule
+// =====================================================================
+//
+// The accessors of a certificate, its expiry test and its signature check are
+// deterministic functions of an immutable certificate (uninterpreted here:
+// what a signature check is, is cryptography). specAccept is the trust rule of
+// the property statement written over them; verify / VerifyCertificate /
+// VerifyCachedCertificate are proved to return a nil error exactly when it
+// holds, and the specific error of the first failing condition otherwise.
+
+//@ func (Certificate).Curve
+//@   trusted accessor of an immutable certificate
+//@   ensures result == self.Curve()
+//@   assigns nothing
+//@ func (Certificate).Issuer
+//@   trusted accessor of an immutable certificate
+//@   ensures result == self.Issuer()
+//@   assigns nothing
+//@ func (Certificate).Expired
+//@   trusted validity-window test, a function of certificate and time (cert_v1.go / cert_v2.go)
+//@   ensures result == self.Expired(t)
+//@   assigns nothing
+//@ func (Certificate).CheckSignature
+//@   trusted signature verification, a function of certificate and key
+//@   ensures result == self.CheckSignature(signingPublicKey)
+//@   assigns nothing
+//@ func (Certificate).PublicKey
+//@   trusted accessor of an immutable certificate
+//@   ensures same(result, self.PublicKey())
+//@   assigns nothing
+//@ func (Certificate).Fingerprint
+//@   trusted hash of the certificate, a function of the certificate
+//@   ensures result0 == specFingerprint(self) && (result1 == nil) == specFingerprintOK(self)
+//@   assigns nothing
+//@ func (Certificate).Groups
+//@   trusted accessor of an immutable certificate
+//@   ensures same(result, self.Groups())
+//@   assigns nothing
+//@ func CalculateAlternateFingerprint
+//@   trusted fingerprint of the certificate with the other S form of a P-256 signature ("" for other curves), a function of the certificate
+//@   ensures result0 == specAltFingerprint(c) && (result1 == nil) == specAltFingerprintOK(c)
+//@   assigns nothing
+//@ func CheckCAConstraints
+//@   trusted here; checkCAConstraints is verified separately (validity window, groups) under C01/C04
+//@   ensures (result == nil) == specConstraintsOK(signer, sub)
+//@   assigns nothing
+
+//@ func specFingerprint
+//@   opaque
+func specFingerprint(c Certificate) string { return "" }
+
+//@ func specFingerprintOK
+//@   opaque
+func specFingerprintOK(c Certificate) bool { return true }
+
+//@ func specAltFingerprint
+//@   opaque
+func specAltFingerprint(c Certificate) string { return "" }
+
+//@ func specAltFingerprintOK
+//@   opaque
+func specAltFingerprintOK(c Certificate) bool { return true }
+
+//@ func specConstraintsOK
+//@   opaque
+func specConstraintsOK(signer, sub Certificate) bool { return true }
+
+// specAccept: the trust rule for certificate c with fingerprint fp at time now.
+// cachedSigner is "" for a full check; for a re-check it is the fingerprint of
+// the CA recorded at the full check, and replaces signature and constraint
+// checks (they do not depend on time or on the rest of the pool).
+//@ func specAccept
+//@   pure
+func specAccept(ncp *CAPool, c Certificate, now time.Time, fp string, cachedSigner string) bool {
+	if has(ncp.certBlocklist, fp) {
+		return false
+	}
+	if c.Issuer() == "" || !has(ncp.CAs, c.Issuer()) {
+		return false
+	}
+	ca := ncp.CAs[c.Issuer()]
+	if ca.Certificate.Curve() != c.Curve() || ca.Certificate.Expired(now) || c.Expired(now) {
+		return false
+	}
+	if len(cachedSigner) > 0 {
+		return cachedSigner == ca.Fingerprint
+	}
+	return c.CheckSignature(ca.Certificate.PublicKey()) && specConstraintsOK(ca.Certificate, c)
+}
+
+//@ func (*CAPool).IsBlocklisted
+//@   props C01
+//@   requires ncp != nil
+//@   ensures result == has(ncp.certBlocklist, fingerprint)
+//@   assigns nothing
+
+//@ func (*CAPool).GetCAForCert
+//@   props C01
+//@   requires ncp != nil && c != nil
+//@   ensures[found] (result1 == nil) == (c.Issuer() != "" && has(ncp.CAs, c.Issuer()))
+//@   ensures[which] implies(result1 == nil, result0 == ncp.CAs[c.Issuer()])
+//@   ensures[err]   implies(c.Issuer() != "" && !has(ncp.CAs, c.Issuer()), result1 == ErrCaNotFound)
+//@   assigns nothing
+
+//@ func (*CAPool).verify
+//@   props C01
+//@   requires ncp != nil && c != nil
+//@   requires[pool] implies(c.Issuer() != "" && has(ncp.CAs, c.Issuer()), ncp.CAs[c.Issuer()] != nil && ncp.CAs[c.Issuer()].Certificate != nil)
+//@   ensures[rule]      (result1 == nil) == specAccept(ncp, c, now, certFp, signerFp)
+//@   ensures[signer]    implies(result1 == nil, result0 == ncp.CAs[c.Issuer()])
+//@   ensures[blocklist] implies(has(ncp.certBlocklist, certFp), result1 == ErrBlockListed)
+//@   ensures[order]     implies(!has(ncp.certBlocklist, certFp) && c.Issuer() != "" && has(ncp.CAs, c.Issuer()), result1 == ite(ncp.CAs[c.Issuer()].Certificate.Curve() != c.Curve(), ErrCurveMismatch, ite(ncp.CAs[c.Issuer()].Certificate.Expired(now), ErrRootExpired, ite(c.Expired(now), ErrExpired, result1))))
+//@   assigns nothing
+
+//@ func (*CAPool).VerifyCachedCertificate
+//@   props C01
+//@   requires ncp != nil && c != nil && c.Certificate != nil
+//@   requires[pool] implies(c.Certificate.Issuer() != "" && has(ncp.CAs, c.Certificate.Issuer()), ncp.CAs[c.Certificate.Issuer()] != nil && ncp.CAs[c.Certificate.Issuer()].Certificate != nil)
+//@   ensures[rule] (result == nil) == (!(c.fingerprint2 != "" && has(ncp.certBlocklist, c.fingerprint2)) && specAccept(ncp, c.Certificate, now, c.Fingerprint, c.signerFingerprint))
+//@   ensures[alt]  implies(c.fingerprint2 != "" && has(ncp.certBlocklist, c.fingerprint2), result == ErrBlockListed)
+//@   assigns nothing
+
+//@ func (*CAPool).VerifyCertificate
+//@   props C01
+//@   requires ncp != nil
+//@   requires[pool] implies(c != nil && c.Issuer() != "" && has(ncp.CAs, c.Issuer()), ncp.CAs[c.Issuer()] != nil && ncp.CAs[c.Issuer()].Certificate != nil)
+//@   ensures[rule]   (result1 == nil) == (c != nil && specFingerprintOK(c) && specAccept(ncp, c, now, specFingerprint(c), "") && specAltFingerprintOK(c) && !(specAltFingerprint(c) != "" && has(ncp.certBlocklist, specAltFingerprint(c))))
+//@   ensures[cached] implies(result1 == nil, result0 != nil && result0.Certificate == c && result0.Fingerprint == specFingerprint(c) && result0.fingerprint2 == specAltFingerprint(c) && result0.signerFingerprint == ncp.CAs[c.Issuer()].Fingerprint)
+//@   ensures[none]   implies(result1 != nil, result0 == nil)
+//@   loop 1 invariant true
+//@   loop 1 assigns mapof(cc.InvertedGroups)
